@@ -236,6 +236,24 @@ func c05Scenes(args []string) error {
 	return nil
 }
 
+// c08Stair: union of the quadrants [lo_k, (99,99)] - exact box distances, minimum: 1-Lipschitz with the right sign
+type c08Stair struct {
+	lo []v2.Vec
+	bb sdf.Box2
+}
+
+func (s *c08Stair) BoundingBox() sdf.Box2 { return s.bb }
+func (s *c08Stair) Evaluate(p v2.Vec) float64 {
+	best := math.Inf(1)
+	for _, l := range s.lo {
+		cx, cy := 0.5*(l.X+99), 0.5*(l.Y+99)
+		dx, dy := math.Abs(p.X-cx)-0.5*(99-l.X), math.Abs(p.Y-cy)-0.5*(99-l.Y)
+		d := math.Hypot(math.Max(dx, 0), math.Max(dy, 0)) + math.Min(math.Max(dx, dy), 0)
+		best = math.Min(best, d)
+	}
+	return best
+}
+
 func c08Scenes(args []string) error {
 	rnd := rand.New(rand.NewSource(seed()))
 	// cell counts at and just below powers of two: the quadtree's root square must still cover the 1 % margin
@@ -273,6 +291,19 @@ func c08Scenes(args []string) error {
 			emit(stat2("overest-box", fmtf(float64(cells)), sdf.Transform2D(b2, sdf.Scale2d(v2.Vec{X: 1, Y: 0.25})), "msu", cells, 0, 5, 0))
 			emit(stat2("overest-box-moved", fmtf(float64(cells)),
 				sdf.Transform2D(b2, sdf.Translate2d(v2.Vec{X: 3.3, Y: -1.7}).Mul(sdf.Rotate2d(0.4)).Mul(sdf.Scale2d(v2.Vec{X: 0.2, Y: 0.6}))), "msu", cells, 0, 2*(0.4+1.2), 0))
+		}
+	}
+	// a staircase whose convex corners poke 2e-5 cells beyond lattice nodes of the quadtree, one node for every level
+	// of the tree (the anti-diagonal through the centre of the root square): a square that contains nothing but such
+	// a corner tip - its centre is half a diagonal minus 3e-5 from the surface - must still be descended into
+	{
+		const e = 2e-5
+		st := &c08Stair{bb: sdf.Box2{Min: v2.Vec{}, Max: v2.Vec{X: 100, Y: 100}}}
+		for k := 58; k <= 198; k += 2 {
+			st.lo = append(st.lo, v2.Vec{X: -0.5 + 0.5*float64(k) - e, Y: -0.5 + 0.5*float64(256-k) - e})
+		}
+		for _, which := range []string{"msq", "msu"} {
+			emit(stat2("stair-corner-tips", "e=2e-5", st, which, 100, 0, 0, 0))
 		}
 	}
 	// a very deep quadtree (17 levels): a long thin box at more than 2^15 cells
